@@ -4,6 +4,11 @@ R_AXIOMS = ("theorems over R use the standard-library real-number axioms Classic
             "sig_not_dec and FunctionalExtensionality.functional_extensionality_dep (named by Print Assumptions in the evidence)")
 
 CHECKS = {
+ "C04": {
+  "technique": "Coq proof (list lemmas on pad/split, any W, T, #series) + correspondence incl. traced end-to-end runs",
+  "text": "C04_single / C04_joint: for every W >= 1, every series length T >= W (any number of series of unequal length) the returned lists have exactly T entries, the first floor((W-1)/2) and last (W-1)-floor((W-1)/2) are -1 and the rest are the main loop's labels in [0,K), in input order; C04_mrf_shape: re-inflating NW(NW+1)/2 numbers gives exactly NW x NW. Tied to the code on every W <= 12 x lengths <= 40 x up to 6 series and on an end-to-end grid of traced runs of both front ends where the result labels must equal the model front end applied to the final model state's labels (hook H1) and the statement is checked on the result objects.",
+  "note": "Closed under the global context. That the main loop's labels are T-W+1 integers in [0,K) is C01_shape; that the loop returns the last round's labels is C09. Runs that raise are outside the property.",
+ },
  "C08": {
   "technique": "Coq proof (invariant over the refill loop, any set order and any draws) + exhaustive correspondence",
   "text": "Model/Repop.v renders repopulate_empty_clusters with the set-iteration order of the recipients and the random.sample draws as inputs, incl. the suspicious pop() branch. Proved for all K, m >= 1, labellings, spreads, orders and valid draws: C08_error_iff (error <=> recipients exceed the donors' capacity sum(floor(size/m)-1)), C08_ok (conservation, who may lose/gain, exactly m per refill, donors keep >= m, others untouched), C08_donor_order (max spread among clusters still >= 2m), C08_dead_branch (the pop() branch is unreachable), C08_iterated. Tied to the code by comparing complete output labellings / errors on every size vector of the exhaustive sub-domain plus random K <= 12, with recorded draws and the interpreter's own set order; a monitor re-checks the property bullets and that the input state is untouched.",
